@@ -1,7 +1,7 @@
 """
 C09 - the first error stops the simulation and is the one that gets reported.
 
-All orderings of 1..3 error sources of different kinds - handler error (H), output calculation
+All orderings of 1..3 error sources of different kinds - handler error (H), handler interrupted by a failing nested event (N), output calculation
 error (C), failing monitored block task (M), failing / returning supporting task (S / R),
 abort(exc) (A), 'abort' control event (E), shutdown() (X), cancellation of the task (K) - and
 the non-fatal kinds unknown event type (U), missing event parameter (P) fired from timer
@@ -43,9 +43,9 @@ ASSUMPTIONS = [
 ]
 
 T0 = 4          # the sources fire at T0 + their instant; the start-up is over by then
-FATAL = 'HCMAE'
+FATAL = 'HCMAEN'
 STOPS = 'XKR'
-KINDS = 'HCMAEXKSRUP'
+KINDS = 'HCMAEXKSRUPN'
 
 
 def configs(tier):
@@ -113,6 +113,17 @@ def one_exec(cfg, chooser):
         hblk = lblock_class()('hblk', log=log, cfg={'init_regular': ('set', 0),
                                                       'event': ('raise', excs['H'])})
         okblk = lblock_class()('okblk', log=log, cfg={'init_regular': ('set', 0)})
+
+        def nested_bad(blk, etype, data):
+            # the handler is interrupted half way by a nested event with a missing parameter:
+            # for the inner block a caller's error, for this block an error inside its handler
+            blk.set_output('half-done')
+            try:
+                inp.event('put')
+            except TypeError as err:
+                excs['N'] = err
+                raise
+        nblk = lblock_class()('nblk', log=log, cfg={'init_regular': ('set', 0), 'on_event': nested_bad})
         inp = edzed.Input('inp', initdef=0)
 
         def calc(a):
@@ -154,6 +165,8 @@ def one_exec(cfg, chooser):
                     edzed.ExtEvent(hblk, 'ev').send(1)
                 elif kind == 'C':
                     edzed.ExtEvent(inp).send('boom')
+                elif kind == 'N':
+                    edzed.ExtEvent(nblk, 'ev').send(1)
                 elif kind == 'A':
                     circuit.abort(excs['A'])
                 elif kind == 'E':
@@ -304,7 +317,7 @@ def judge(cfg, obs):
     # expected kind of the first error: identity / documented wrapper
     if error is not None and not is_cancel(error):
         cause = error.__cause__
-        known = [excs[k] for k in 'HCMAE']
+        known = [excs[k] for k in 'HCMAEN']
         if error not in known and cause not in known:
             viol.append(('foreign-error', f"{tag}: Circuit.error = {error!r} (cause {cause!r})"))
         if (error is excs['H']) or (cause is excs['H'] and not isinstance(error, edzed.EdzedCircuitError)):
